@@ -106,7 +106,7 @@ func engineEmit(prop, out string, scens []taggedScen, st *stats) error {
 	controls := engineControls(jl)
 	st.Controls = len(controls)
 	n, err := writeShards(out, prop, engineImports(prop),
-		"escen", "eobs", "admits_engine", "spec_"+prop, cases, controls)
+		"escen", "eobs", "admits_engine", specName(prop), cases, controls)
 	if err != nil {
 		return err
 	}
@@ -219,7 +219,7 @@ func engineReplay(prop, file, out string) error {
 		return nil
 	}
 	_, err = writeShards(out, prop, engineImports(prop),
-		"escen", "eobs", "admits_engine", "spec_"+prop,
+		"escen", "eobs", "admits_engine", specName(prop),
 		[]coqCase{{id: 0, scen: sc.Coq(), obs: obs.Coq()}}, nil)
 	if err != nil {
 		return err
@@ -419,4 +419,13 @@ func noteProgress(out string, i int, ts taggedScen) {
 	}
 	b, _ := json.Marshal(map[string]any{"id": i, "scen": ts.sc, "tags": ts.tags})
 	os.WriteFile(filepath.Join(out, "progress.json"), b, 0o644)
+}
+
+// specName: the predicate the case files apply for a property
+func specName(prop string) string {
+	switch prop {
+	case "C02", "C17":
+		return "spec_" + prop + "x"
+	}
+	return "spec_" + prop
 }
